@@ -202,9 +202,20 @@ class Checker:
                 s.set('timeout', 1000)
                 s.set('random_seed', rnd.randint(0, 10 ** 6))
                 from .engine import _has_quantifier
-                # (quantified axioms are left out: the native side re-checks the precondition on the concrete input)
+                # quantified axioms are replaced by their instances at 0..8 (list sizes are kept small below); the
+                # native side re-checks the full precondition on the concrete input anyway
                 s.add(*[h for h in hyps if not _has_quantifier(h)])
+                for h in hyps:
+                    if _has_quantifier(h):
+                        for conj in (h.children() if z3.is_and(h) else [h]):
+                            if z3.is_quantifier(conj) and conj.is_forall() and conj.num_vars() == 1:
+                                s.add(*[z3.substitute_vars(conj.body(), z3.IntVal(v)) for v in range(0, 9)])
+                            elif not _has_quantifier(conj):
+                                s.add(conj)
                 for cst in consts:
+                    if str(cst) in ('n', 'np', 'nseg', 'ref_n'):
+                        s.add(cst >= 0, cst <= rnd.choice([2, 3, 5, 7]))
+                        continue
                     hi = rnd.choice([3, 12, 100, 5000, 10 ** 6])
                     s.add(cst >= -hi // 4, cst <= hi)
                     if rnd.random() < 0.35:
@@ -234,6 +245,8 @@ class Checker:
                                              'observed': r.get('observed', '')[:300]})
             else:
                 out['build_errors'] += 1
+                if len(out.setdefault('error_samples', [])) < 6:
+                    out['error_samples'].append({'function': label, 'status': st, 'error': (r.get('error') or json.dumps(r.get('clause_errors')))[:300]})
         return out
 
     # ------------------------------------------------------------------ verdicts
